@@ -7,6 +7,7 @@ from ..idx import index
 from ..px import OK, PX, RAISE, Outcomes
 from ..pxv import Obj, Sym
 from ..te import TypeRef
+from .util import anchor_attrs
 from .util import const, same_class, self_obj
 
 APP = "bellows.zigbee.application"
@@ -27,6 +28,7 @@ def r19_1(ctx):
     propagates without being counted. On version 4 the keep-alive is exactly one nop; otherwise the feed counter
     advances by one on every feed and the first command is read_counters when counter % PERIOD > 0 and
     read_and_clear_counters when it is 0."""
+    anchor_attrs(ctx, "ControllerApplication", "_watchdog_failures", "_watchdog_feed_counter", "_ezsp")
     repo = ctx.repo
     MAX = const(ctx, APP, "MAX_WATCHDOG_FAILURES", int)
     PERIOD = const(ctx, APP, "EZSP_COUNTERS_CLEAR_IN_WATCHDOG_PERIODS", int)
